@@ -158,7 +158,7 @@ fn op_router(case: &Value) -> Value {
 }
 
 fn main() {
-    std::panic::set_hook(Box::new(|_| {}));
+    std::panic::set_hook(Box::new(|info| { if std::env::var("REPLAY_DEBUG").is_ok() { eprintln!("{}", info); } }));
     let stdin = std::io::stdin();
     for line in stdin.lock().lines() {
         let line = line.expect("stdin");
